@@ -9,29 +9,22 @@ trap 'rm -rf "$SELFTEST_SNAP"' EXIT
 rsync -a --exclude .git /repo/ "$SELFTEST_SNAP/repo/"
 mkdir -p "$SELFTEST_SNAP/verif"
 rsync -a --exclude .git --exclude engine --exclude seeded --exclude evidence --exclude replays /verif/ "$SELFTEST_SNAP/verif/"
-killed=0; total=0
-run() { # patch prop label
-  total=$((total+1))
-  out=$(tools/trymut.sh "$1" "$2" 2>&1)
-  if echo "$out" | grep -q "^VIOLATION"; then
-    killed=$((killed+1)); repro="no-input"
-    echo "$out" | grep "^VIOLATION" | grep -qv "no-failing-input-found" && repro="input-found"
-    echo "KILLED  $3 ($2) $repro: $(echo "$out" | grep "^VIOLATION" | head -1 | sed 's/.*obligation=//' | cut -c1-90)"
-  elif echo "$out" | grep -q "^ERROR"; then
-    echo "ERROR   $3 ($2): $(echo "$out" | grep "^ERROR" | head -1 | cut -c1-120)"
-  else
-    echo "MISSED  $3 ($2)"
-  fi
-}
+# jobs: "<patch> <prop> <label>" per line, run in SELFTEST_LANES parallel lanes (default 2: each check
+# already races three solvers per obligation on all cores; more lanes risk solver timeouts)
+jobs=$(mktemp /tmp/selftest_jobs.XXXXXX)
 for p in selftest/mutants/*.patch; do
   prop=$(basename "$p" | cut -d- -f1)
-  run "$p" "$prop" "$(basename "$p" .patch)"
+  echo "$p $prop $(basename "$p" .patch)" >> "$jobs"
 done
 if [ "${1:-}" != "--no-seeded" ]; then
   for d in seeded/*/; do
     id=$(basename "$d"); prop=${id%-*}
     jq -e --arg p "$prop" '.checks[] | select(.property_id==$p)' MANIFEST.json >/dev/null || { echo "UNCLAIMED $id ($prop not claimed)"; continue; }
-    run "$d/patch.diff" "$prop" "seeded/$id"
+    echo "${d}patch.diff $prop seeded/$id" >> "$jobs"
   done
 fi
+res=$(mktemp /tmp/selftest_res.XXXXXX)
+xargs -P "${SELFTEST_LANES:-2}" -L 1 tools/selftest_one.sh < "$jobs" | tee "$res"
+total=$(wc -l < "$jobs"); killed=$(grep -c "^KILLED" "$res")
+rm -f "$jobs" "$res"
 echo "selftest: $killed/$total killed"
